@@ -55,8 +55,19 @@ fn main() {
     unsafe { std::env::set_var("RUST_BACKTRACE", "0") };
     let ctx = vcore::Ctx::from_args();
     harness::install_panic_hook();
+    harness::set_case_cpu_millis(ctx.pick(60, 400));
     match ctx.id.as_str() {
         "C09" => c09::main(&ctx),
+        "probe" => {
+            // development aid: xcdr probe quick <file.json>  (a C09 case: {"ty":..,"vals":[..]})
+            let path = ctx.extra.first().expect("file");
+            let txt = std::fs::read_to_string(path).unwrap();
+            let v: serde_json::Value = serde_json::from_str(&txt).unwrap();
+            let v = v.get("case").cloned().unwrap_or(v);
+            let case: c09::Case = serde_json::from_value(v).unwrap();
+            c09::probe(&case);
+            std::process::exit(0)
+        }
         "selftest" => match golden::self_test() {
             Ok(n) => {
                 println!("R-XCDR self-test: {n} golden vectors reproduced");
